@@ -12,7 +12,7 @@ sys.path.insert(0, os.path.dirname(os.path.abspath(__file__)))
 import catalogue  # noqa: E402
 
 mode = sys.argv[1] if len(sys.argv) > 1 else "all"
-flt = [a for a in sys.argv[2:] if not a.startswith("--")]
+flt = [a for a in sys.argv[2:] if not a.startswith("--")]  # --tests, --jobs=N
 with_tests = "--tests" in sys.argv
 TARGET = "/tmp/verif-selftest-target"
 results = []
@@ -73,10 +73,14 @@ if mode in ("mutants", "all"):
     todo += [("mutant",) + m for m in catalogue.MUTANTS]
 if mode in ("benign", "all"):
     todo += [("benign",) + b for b in catalogue.BENIGN]
-for (kind, name, checks, edits) in todo:
-    if flt and not any(f in name for f in flt):
-        continue
-    r = one(kind, name, checks, edits)
+jobs = 1
+for a in sys.argv[1:]:
+    if a.startswith("--jobs="):
+        jobs = int(a.split("=")[1])
+todo = [t for t in todo if not flt or any(f in t[1] for f in flt)]
+import concurrent.futures
+_pool = concurrent.futures.ThreadPoolExecutor(max_workers=jobs)
+for r in _pool.map(lambda t: one(*t), todo):
     results.append(r)
     print("%-7s %-38s %s" % (r[0], r[1], r[2]))
     if "ok" not in r[2] or r[0] == "benign" and r[2] != "ok":
